@@ -96,8 +96,8 @@ def run_case(case):
         node = a
         for i in d[0][:-1]:
             node = node[i]
-        where = node[0] if isinstance(node, tuple) and node and isinstance(node[0], str) else "?"
-        res["findings"].append({"signature": "cpp-disturbs-fortran@" + where, "what": "tree minus directive nodes differs from tree(P) at %s: %s vs %s" % d, "replay": rp})
+        at_cls = node[0] if isinstance(node, tuple) and node and isinstance(node[0], str) else "?"
+        res["findings"].append({"signature": "cpp-disturbs-fortran@" + at_cls, "what": "tree minus directive nodes differs from tree(P) at %s: %s vs %s" % d, "replay": rp})
     nodes = [n for n in treeutil.all_nodes(o1.tree) if type(n).__name__.startswith("Cpp_") and type(n).__name__.endswith("_Stmt")]
     got = [dnorm(str(n)) for n in nodes]
     exp = [dnorm(d) for d in D]
@@ -114,6 +114,24 @@ def run_case(case):
             j = next((i for i, (x, y) in enumerate(zip(got, exp)) if x != angle(y)), min(len(got), len(exp)))
             res["findings"].append({"signature": "cpp-payload:" + (D[j].split()[0] if j < len(D) and D[j].split() else "count"),
                                     "what": "directive %d: tree has %r, source has %r (%d nodes for %d directives)" % (j, got[j:j + 1], exp[j:j + 1], len(got), len(exp)),
+                                    "replay": rp})
+    # position: with comments dropped every statement prints as one line, so the number of
+    # non-directive lines in front of a directive must be the number of statements in front
+    # of the boundary it was inserted at
+    if not keep:
+        plines = [l.strip() for l in str(o1.tree).split("\n") if l.strip()]
+        starts = sorted(f for f, _ in L.spans.values())
+        want = [sum(1 for f in starts if f < ln) for ln in where]
+        gotpos = []
+        nstmt = 0
+        for l in plines:
+            if l.startswith("#"):
+                gotpos.append(nstmt)
+            else:
+                nstmt += 1
+        if len(gotpos) == len(want) and gotpos != want:
+            j = next(i for i, (x, y) in enumerate(zip(gotpos, want)) if x != y)
+            res["findings"].append({"signature": "cpp-position", "what": "directive %r inserted after %d statements appears after %d statements in the regenerated text" % (D[j], want[j], gotpos[j]),
                                     "replay": rp})
     printed = dnorm(str(o1.tree))
     pos = 0
